@@ -19,13 +19,14 @@ def run(ctx, selftest=False):
     from .. import jk
     jk.load()
     ctx.rule = ("cases = histories of calls exported by TLC from HistoryMC (samples: 12 reads, 4 mutations, 5 derivations; data: 9 reads, "
-                "4 derivations; prior: 4 reads), each replayed on a real object of 6 (thorough 12) seeded configurations; distinct = distinct "
+                "4 derivations; prior: 4 reads; sampler: 3 reads, 4 draws), each replayed on a real object of 6 (thorough 12) seeded configurations; distinct = distinct "
                 "(kind, history, configuration); trivial = histories of one call")
     ctx.assumptions = ["TLC/SANY", "a fresh twin built through the public constructors from regenerated inputs is a valid oracle for the "
                        "content (the constructors themselves are the subject of C15 / C17 / C09)", "answers compared to rtol 1e-11"]
     n = 0
-    for kind in ("samples", "data", "prior"):
-        n += history.check(ctx, kind, None, None, selftest=selftest and kind == "samples", cap=(900 if kind != "prior" else 40) if ctx.tier == "quick" else None)
+    for kind in ("samples", "data", "prior", "sampler"):
+        n += history.check(ctx, kind, None, None, selftest=selftest and kind == "samples",
+                           cap={"prior": 40, "sampler": 120}.get(kind, 900) if ctx.tier == "quick" else None)
     ctx.notes["histories_total"] = n
 
 
